@@ -317,7 +317,9 @@ class DefGen:
                 elif r2 < 0.65 and sw["expr"] and not self.fixed_only:
                     dims = [self.length_expr(int_fields)]
                     fdyn = True
-                elif r2 < 0.8 and sw["null"] and not self.fixed_only and tname not in FLOATS and tname != "ptr":
+                elif r2 < 0.8 and sw["null"] and not self.fixed_only and tname not in FLOATS and (tname != "ptr" or rng.random() < 0.15):
+                    # (null-terminated arrays of POINTERS are declared too, rarely: the shipped library cannot read them -
+                    # such cases are discarded for lack of an accepted input - but a tree that can must read them properly)
                     dims = [""]
                     fdyn = True
                 elif r2 < 0.9 and sw["eof"] and self.allow_eof and root and last and not is_union and not self.fixed_only:
